@@ -159,7 +159,7 @@ Proof. exact range_of_spec. Qed.
 Print Assumptions C19_range_of_spec.
 
 Theorem C19_entries_spec : forall m lo hi max ctx,
-    RepInv m -> entries m <> [] ->
+    RepInv m ->
     first_of m <= lo -> lo <= hi -> hi <= next_of m ->
     trig_log m && can_async ctx = false ->
     exists r, storage_entries m lo hi max ctx = Ok (m, SOk r)
@@ -198,26 +198,30 @@ Theorem C19_entries_panics_iff : forall m lo hi max ctx,
     ((exists s, storage_entries m lo hi max ctx = Panic s)
      <-> first_of m <= lo
          /\ (next_of m < hi
-             \/ (trig_log m && can_async ctx = false
-                 /\ (entries m = [] \/ hi < lo)))).
+             \/ (trig_log m && can_async ctx = false /\ hi < lo))).
 Proof. exact entries_panics_iff. Qed.
 Print Assumptions C19_entries_panics_iff.
 
-(* candidate finding: the entries[0] panic of a store holding no entry *)
-Theorem C19_entries_empty_range_panics : forall m lo hi max ctx,
-    RepInv m ->
-    (storage_entries m lo hi max ctx = Panic site_entries_entries0
-     <-> entries m = [] /\ first_of m <= lo /\ hi <= first_of m
-         /\ trig_log m && can_async ctx = false).
-Proof. exact entries_entries0_iff. Qed.
-Print Assumptions C19_entries_empty_range_panics.
+(* the store holding no entries (the entries[0] panic fixed by /repo 9c2e6d6) *)
+Theorem C19_entries_empty_store : forall m lo hi max ctx,
+    RepInv m -> entries m = [] ->
+    first_of m <= lo -> lo <= hi -> hi <= next_of m ->
+    trig_log m && can_async ctx = false ->
+    storage_entries m lo hi max ctx = Ok (m, SOk []).
+Proof. exact entries_empty_store. Qed.
+Print Assumptions C19_entries_empty_store.
 
-Theorem C19_entries_empty_range_nonempty_store : forall m lo max ctx,
-    RepInv m -> entries m <> [] -> first_of m <= lo <= next_of m ->
+Theorem C19_entries_empty_range : forall m lo max ctx,
+    RepInv m -> first_of m <= lo <= next_of m ->
     trig_log m && can_async ctx = false ->
     storage_entries m lo lo max ctx = Ok (m, SOk []).
-Proof. exact entries_empty_range_nonempty_store. Qed.
-Print Assumptions C19_entries_empty_range_nonempty_store.
+Proof. exact entries_empty_range. Qed.
+Print Assumptions C19_entries_empty_range.
+
+Theorem C19_entries_entries0_never : forall m lo hi max ctx,
+    RepInv m -> storage_entries m lo hi max ctx <> Panic site_entries_entries0.
+Proof. exact entries_entries0_never. Qed.
+Print Assumptions C19_entries_entries0_never.
 
 (* ---- snapshot ---- *)
 Theorem C19_make_snapshot_ok_iff : forall m,
@@ -257,7 +261,7 @@ Theorem C19_history_from_new : forall ops,
       /\ storage_last_index m + 1 = sp_next (abs m)
       /\ (forall i, storage_term m i = Ok (spec_term (abs m) i))
       /\ (forall lo hi max ctx,
-            sp_ents (abs m) <> [] -> sp_first (abs m) <= lo -> lo <= hi ->
+            sp_first (abs m) <= lo -> lo <= hi ->
             hi <= sp_next (abs m) -> trig_log m && can_async ctx = false ->
             storage_entries m lo hi max ctx
             = Ok (m, SOk (limit_size (spec_range (abs m) lo hi) max))).
